@@ -5,7 +5,7 @@
 (* checks is computed, each tagged with the property it belongs to; the state    *)
 (* then follows the implementation (resynchronisation), so one mismatch does not *)
 (* hide the rest of the trace. One successor per state: validation is linear.    *)
-EXTENDS Enr, Base64Url, NodeId, Json, IOUtils, TLC
+EXTENDS Enr, Base64Url, NodeId, EnrDebug, Json, IOUtils, TLC
 
 Rec == ndJsonDeserialize(IOEnv.TRACE)
 
@@ -120,6 +120,7 @@ ExtChecks(c, x, tab) ==
   \o <<Chk("C12", "text_form", x.text = TextOf(c.enc)),
        Chk("C12", "display_is_text", x.display = x.text),
        Chk("C12", "json_is_quoted_text", x.json = <<34>> \o x.text \o <<34>>),
+       Chk("X01", "debug_rendering", DebugSpecified(c) => x.debug = DebugOfRec(c)),
        Chk("C14", "getters", GetterChecks(c, x)),
        Chk("C14", "absent_key_none", x.absent_none),
        Chk("C08", "into_iter_is_pairs", x.into_iter = ps),
